@@ -524,9 +524,10 @@ class DiscriminatedUnionUnpackerBuilder(AbstractUnpackerBuilder):
             )
             with lines.indent():
                 spec.builder.ensure_object_imported(spec.builder.__class__)
+                # the variant gets its default method: a call dialect is
+                # passed to that method, which compiles for it on its own
                 lines.append(
                     "CodeBuilder(variant, "
-                    "dialect=_dialect, "
                     f"format_name={repr(spec.builder.format_name)}, "
                     "default_dialect=_default_dialect)"
                     ".add_unpack_method()"
